@@ -202,13 +202,23 @@ def generate(tier, seed, ctx):
             try:
                 s = tlbkit.tree_to_cell(e['tree']).begin_parse()
                 obj = T.MessageAny.deserialize(s)
+                reparsed = obj
                 rec['obs'] = tlbkit.observe(obj, e['flat'], 'Message')
                 rec['rem'] = {'bits': s.remaining_bits, 'refs': s.remaining_refs}
                 if e['sides'][1] == 0 and s.remaining_bits == len(obj.body.bits) and s.remaining_refs == len(obj.body.refs):
                     rec['rem'] = {'bits': 0, 'refs': 0}          # inline body = the rest of the cell (see C16)
             except Exception as ex:
                 rec['err'] = type(ex).__name__
+                reparsed = None
             out.append(rec)
+            # second generation: the object the parser returned, serialised again, is an encoding of the same message
+            if reparsed is not None and m['canon'] and (m['id'] + len(out)) % 3 == 0:
+                rec = {'op': 'msg_ser', 'val': v, 'tags': ['reserialised_from_parsed']}
+                try:
+                    rec['out'] = {'tree': tlbkit.cell_tree(reparsed.serialize())}
+                except Exception as ex:
+                    rec['out'] = {'err': type(ex).__name__}
+                out.append(rec)
     # isolation of values (repeated use): a default-constructed value edited in place must not leak into values built later
     def nbits(v, w):
         return [(v >> (w - 1 - i)) & 1 for i in range(w)]
@@ -293,7 +303,16 @@ def generate(tier, seed, ctx):
             rec['rem'] = {'bits': s.remaining_bits, 'refs': s.remaining_refs}
         except Exception as e:
             rec['err'] = type(e).__name__
+            obj = None
         out.append(rec)
+        if obj is not None and canon and ty != 'StateInit' or (obj is not None and ty == 'StateInit'):
+            # second generation: what the parser returned, serialised again, is an encoding of the same value
+            rec = {'op': 'wrap_ser', 'type': ty, 'val': v, 'tags': ['reserialised_from_parsed']}
+            try:
+                rec['out'] = {'tree': tlbkit.cell_tree(obj.serialize())}
+            except Exception as e:
+                rec['out'] = {'err': type(e).__name__}
+            out.append(rec)
     return out
 
 
